@@ -226,3 +226,53 @@ func (a Anno) GFF(ref string, withFasta bool) string {
 	}
 	return sb.String()
 }
+
+// genDupFeature builds the situation two features of one name are really met in: a reference with a repeated
+// coding segment, one feature on each copy (same Name), and queries that carry the same amino-acid change in
+// the first copy, the second copy, both or neither, plus changes in the stretch between the copies. The same
+// printed mutation then arises at two genome positions.
+func genDupFeature(r *Rand, nseq int) (ref string, an Anno, all Aln) {
+	codons := []string{"GCT", "AAA", "GAT", "CCA", "TTG", "ATG", "GGA", "CAC", "AGC", "TAC"}
+	k := r.Range(2, 4)
+	seg := ""
+	for i := 0; i < k; i++ {
+		seg += codons[r.Intn(len(codons))]
+	}
+	x, y, z := genRefSeq(r, r.Range(0, 4)), genRefSeq(r, r.Range(3, 9)), genRefSeq(r, r.Range(0, 4))
+	ref = x + seg + y + seg + z
+	s1, s2 := len(x)+1, len(x)+len(seg)+len(y)+1
+	name := r.Pick("gP", "ORF1ab", "S")
+	an.Feats = []Feat{
+		{ID: "cds1", Name: name, Strand: 1, Type: "CDS", Segs: [][2]int{{s1, s1 + len(seg) - 1}}},
+		{ID: "cds2", Name: name, Strand: 1, Type: "CDS", Segs: [][2]int{{s2, s2 + len(seg) - 1}}},
+	}
+	if r.P(0.3) { // a third, differently named feature somewhere
+		an.Feats = append(an.Feats, Feat{ID: "cds3", Name: "gQ", Strand: 1, Type: "CDS", Segs: [][2]int{{s1, s1 + 2}}})
+	}
+	ci := r.Intn(k)     // the codon that changes
+	off := 3*ci + 1     // its second base: always a change of amino acid
+	alt := "ACGT"[(strings.IndexByte("ACGT", seg[off])+1+r.Intn(3))%4]
+	all = Aln{Names: []string{"ref"}, Seqs: []string{ref}}
+	for i := 0; i < nseq; i++ {
+		b := []byte(ref)
+		if r.Bool() {
+			b[s1-1+off] = alt
+		}
+		if r.Bool() {
+			b[s2-1+off] = alt
+		}
+		for j := 0; j < len(y); j++ {
+			if r.P(0.25) {
+				p := len(x) + len(seg) + j
+				b[p] = "ACGT"[(strings.IndexByte("ACGT", ref[p])+1+r.Intn(3))%4]
+			}
+		}
+		if r.P(0.2) {
+			p := r.Intn(len(b))
+			b[p] = "ACGTN"[r.Intn(5)]
+		}
+		all.Names = append(all.Names, fmt.Sprintf("q%d", i+1))
+		all.Seqs = append(all.Seqs, string(b))
+	}
+	return ref, an, all
+}
